@@ -265,7 +265,7 @@ fn check_encoding(ctx: &Ctx, v: &Val, bytes: &[u8], taken: &[&'static str], opts
 }
 
 pub fn run(ctx: &Ctx) {
-    ctx.rule("cases = (value, admissible encoding) pairs from the independent writer: exhaustive over all encoding alternatives for values with <= 200 combinations, random alternatives beyond; distinct = distinct (set of value kinds present, sorted set of non-canonical alternatives taken)");
+    ctx.rule("cases = (value, admissible encoding) pairs from the independent writer (boundary leaves in skeletons; maps keyed by pairs of sibling values - numeric neighbours across int/bigint/float, identifiers differing in one field or trailing word, lists differing in tail kind, bit-strings differing in padding; random trees): exhaustive over all encoding alternatives for values with <= 200 combinations, random alternatives beyond; distinct = distinct (set of value kinds present, sorted set of non-canonical alternatives taken)");
     ctx.assume("alternatives table: small/large/padded integers, text floats, 4 atom tags (Latin-1 incl. >=0x80), STRING_EXT, small/large tuple, legacy pid/port/ref tags, NEW_PORT_EXT, LOCAL_EXT (hash8+term), COMPRESSED at top level, BIT_BINARY_EXT with 8 bits");
     let opts = Opts { allow_local: true, ..Opts::default() };
     let mut rng = Rng::derive(ctx.seed, 3, 1);
@@ -321,6 +321,37 @@ pub fn run(ctx: &Ctx) {
         }
     }
     ctx.extra("values_with_all_alternatives_enumerated", json!(exhaustive_values));
+
+    // (a') sibling keys: two values differing in one digit / field / trailing word / tail kind as the keys of one
+    // map (bare, and at the same position of otherwise equal compound keys), canonical + random alternatives
+    {
+        let mut frng = Rng::derive(ctx.seed, 3, 3);
+        let fams = crate::genr::near::families(&mut frng);
+        let maps = crate::genr::near::sibling_maps(&fams, crate::genr::near::Twins::Skip, true);
+        let mut n = 0u64;
+        for (fam, v) in &maps {
+            if !ctx.time_left() {
+                break;
+            }
+            let mut can = Canonical;
+            if let Ok(bytes) = ref_encode(v, &mut can, &opts) {
+                ctx.class(&format!("siblings/{}", fam));
+                check_encoding(ctx, v, &bytes, &[], &opts, &mut rng);
+                n += 1;
+            }
+            for _ in 0..ctx.pick(1, 6) {
+                let mut ch = RandomChooser { rng: &mut frng, legacy_bias: 50, taken: vec![] };
+                if let Ok(bytes) = ref_encode(v, &mut ch, &opts) {
+                    let taken = ch.taken.clone();
+                    drop(ch);
+                    check_encoding(ctx, v, &bytes, &taken, &opts, &mut rng);
+                    n += 1;
+                }
+            }
+        }
+        ctx.extra("sibling_key_maps", json!(maps.len()));
+        ctx.extra("sibling_key_encodings", json!(n));
+    }
 
     // (b) random values x random alternatives
     let n_random = ctx.pick(40_000usize, 2_000_000usize);
